@@ -31,6 +31,9 @@ pub mod unmanaged;
 
 pub use deadpool_runtime::{Runtime, SpawnBlockingError};
 
+#[cfg(deadpool_verif)]
+pub mod verif;
+
 /// The current pool status.
 ///
 /// **The status returned by the pool is not guaranteed to be consistent!**
